@@ -31,7 +31,7 @@ func (c09) Meta() fw.Meta {
 			"the oracle uses the clock the command printed; the symmetry relation is only judged when both runs printed the same clock",
 			"a glob pattern that matches nothing on the source side is not a 'missing file' and is not judged here (C16 covers it)",
 		},
-		Obligations: []string{"diff_runs", "clean_verdicts", "diff_verdicts", "records_checked", "self_diff", "identical_files", "ulp_apart", "signed_zero_equal", "nan_vs_nan_equal", "nan_vs_value", "missing_src", "missing_dest", "layout_mismatch_error", "symmetry_checked", "glob_one_differs", "glob_none_differs", "single_archive_selection", "remote_side_runs", "text_out_file_runs", "never_written_side", "symlinked_source_in_glob", "unclean_base_spelling", "remote_glob_runs"},
+		Obligations: []string{"diff_runs", "clean_verdicts", "diff_verdicts", "records_checked", "self_diff", "identical_files", "ulp_apart", "signed_zero_equal", "nan_vs_nan_equal", "nan_vs_value", "missing_src", "missing_dest", "layout_mismatch_error", "symmetry_checked", "glob_one_differs", "glob_none_differs", "single_archive_selection", "remote_side_runs", "text_out_file_runs", "never_written_side", "symlinked_source_in_glob", "unclean_base_spelling", "remote_glob_runs", "both_sides_remote_runs", "both_sides_remote_long_archives"},
 		Workers:     12,
 	}
 }
@@ -145,10 +145,17 @@ func (c09) Run(c *fw.Ctx) {
 	mustMkdir(aBase)
 	mustMkdir(bBase)
 	l := cliLayout(r)
+	big := c.Index%24 == 5 // two long archives, both sides fetched concurrently from one single-threaded server
+	if big {
+		l = model.Layout{Archs: []model.Arch{{Step: 1, Points: uint32(150000 + r.Intn(100000))}, {Step: 60, Points: uint32(30000 + r.Intn(20000))}}, Method: 1 + r.Intn(6), Xff: 0.5}
+	}
 	now := time.Now().Unix()
 	kinds := []string{"identical-bytes", "same-content", "perturbed", "special-values", "unrelated", "missing-src", "missing-dest", "layout-mismatch", "self", "perturbed", "fresh-vs-written"}
 	sc := diffScenario{L: l.String(), Kind: kinds[c.Index%len(kinds)], Archive: -1}
-	sc.Glob = c.Index%7 == 3 && sc.Kind != "missing-src" && sc.Kind != "layout-mismatch" && sc.Kind != "self"
+	if big {
+		sc.Kind = "perturbed"
+	}
+	sc.Glob = !big && c.Index%7 == 3 && sc.Kind != "missing-src" && sc.Kind != "layout-mismatch" && sc.Kind != "self"
 	windows := []string{"default", "narrow", "past", "degenerate", "beyond-finest", "default", "default"}
 	sc.Window = windows[(c.Index/len(kinds))%len(windows)]
 	if r.Intn(3) == 0 {
@@ -222,7 +229,11 @@ func (c09) Run(c *fw.Ctx) {
 			for ai := range l.Archs {
 				all = append(all, ai)
 			}
-			perturb(r, d, all, 1+r.Intn(4))
+			np := 1 + r.Intn(4)
+			if big {
+				np = 200
+			}
+			perturb(r, d, all, np)
 			writeFixture(bp, l, d, now)
 		case "special-values":
 			sa, sb := cloneContent(cont), cloneContent(cont)
@@ -327,7 +338,25 @@ func (c09) Run(c *fw.Ctx) {
 			c.Count("remote_glob_runs", 1)
 		}
 	}
-	if !sc.Glob && c.Index%3 == 2 && sc.Kind != "self" {
+	if big || (!sc.Glob && c.Index%6 == 2 && sc.Kind != "self" && sc.Kind != "missing-src" && sc.Kind != "missing-dest") {
+		// both sides served by the same server: the command fetches them concurrently
+		if u, served, ok := workerServer1P(c); ok {
+			ls, ld := filepath.Join(served, fmt.Sprintf("c09s-%d", c.Index)), filepath.Join(served, fmt.Sprintf("c09d-%d", c.Index))
+			os.Symlink(aBase, ls)
+			os.Symlink(destBase, ld)
+			defer os.Remove(ls)
+			defer os.Remove(ld)
+			srcBaseArg, destBaseArg = u, u
+			patArg = filepath.Join(filepath.Base(ls), pat)
+			extra = []string{"-dest", filepath.Join(filepath.Base(ld), pat)}
+			sc.Kind += "+both-remote"
+			c.Count("remote_side_runs", 1)
+			c.Count("both_sides_remote_runs", 1)
+			if big {
+				c.Count("both_sides_remote_long_archives", 1)
+			}
+		}
+	} else if !sc.Glob && c.Index%3 == 2 && sc.Kind != "self" {
 		if u, served, ok := workerServer(c); ok {
 			link := filepath.Join(served, fmt.Sprintf("c09-%d", c.Index))
 			if r.Intn(2) == 0 {
